@@ -19,6 +19,9 @@ use arrayvec::ArrayVec;
 use crossbeam_channel::Sender;
 use hashbrown::HashMap;
 use hdrhistogram::Histogram;
+#[cfg(aquatic_verif)]
+use crate::verif_sync::{RwLock, RwLockUpgradableReadGuard};
+#[cfg(not(aquatic_verif))]
 use parking_lot::RwLockUpgradableReadGuard;
 use rand::prelude::SmallRng;
 use rand::{Rng, RngExt};
@@ -29,6 +32,7 @@ use crate::config::Config;
 const SMALL_PEER_MAP_CAPACITY: usize = 2;
 
 use aquatic_udp_protocol::InfoHash;
+#[cfg(not(aquatic_verif))]
 use parking_lot::RwLock;
 
 #[derive(Clone)]
@@ -749,6 +753,123 @@ impl PeerStatus {
             Self::Seeding
         } else {
             Self::Leeching
+        }
+    }
+}
+
+/// Read-only dump of everything the storage keeps, for verification
+#[cfg(aquatic_verif)]
+pub mod verif {
+    use super::*;
+
+    #[derive(Clone, Debug, PartialEq, Eq, PartialOrd, Ord, Hash)]
+    pub struct PeerDump {
+        pub ip: Vec<u8>,
+        pub port: u16,
+        pub peer_id: [u8; 20],
+        pub is_seeder: bool,
+        pub valid_until: u32,
+    }
+
+    #[derive(Clone, Debug, PartialEq, Eq, PartialOrd, Ord, Hash)]
+    pub struct TorrentDump {
+        pub info_hash: [u8; 20],
+        pub shard: usize,
+        pub large: bool,
+        /// Cached seeder counter (large representation only)
+        pub cached_num_seeders: Option<usize>,
+        /// In storage order
+        pub peers: Vec<PeerDump>,
+        pub peer_map_lock_addr: usize,
+    }
+
+    #[derive(Clone, Debug, Default)]
+    pub struct Dump {
+        pub ipv4: Vec<TorrentDump>,
+        pub ipv6: Vec<TorrentDump>,
+        pub ipv4_shard_lock_addrs: Vec<usize>,
+        pub ipv6_shard_lock_addrs: Vec<usize>,
+    }
+
+    pub trait IpBytes {
+        fn bytes(&self) -> Vec<u8>;
+    }
+
+    impl IpBytes for Ipv4AddrBytes {
+        fn bytes(&self) -> Vec<u8> {
+            self.0.to_vec()
+        }
+    }
+
+    impl IpBytes for Ipv6AddrBytes {
+        fn bytes(&self) -> Vec<u8> {
+            self.0.to_vec()
+        }
+    }
+
+    fn peer_dump<I: Ip + IpBytes>(k: &ResponsePeer<I>, p: &Peer) -> PeerDump {
+        let (ip_address, port) = (k.ip_address, k.port);
+
+        PeerDump {
+            ip: ip_address.bytes(),
+            port: port.0.get(),
+            peer_id: p.peer_id.0,
+            is_seeder: p.is_seeder,
+            valid_until: p.valid_until.verif_get(),
+        }
+    }
+
+    fn dump_shards<I: Ip + IpBytes>(shards: &TorrentMapShards<I>) -> (Vec<TorrentDump>, Vec<usize>) {
+        let mut out = Vec::new();
+        let mut addrs = Vec::new();
+
+        for (shard_index, shard) in shards.0.iter().enumerate() {
+            addrs.push(shard as *const _ as usize);
+
+            for (info_hash, peer_map) in shard.read().iter() {
+                let peer_map_lock_addr = Arc::as_ptr(peer_map) as usize;
+                let peer_map = peer_map.read();
+
+                let (large, cached_num_seeders, peers) = match &*peer_map {
+                    PeerMap::Small(m) => (
+                        false,
+                        None,
+                        m.0.iter().map(|(k, p)| peer_dump(k, p)).collect(),
+                    ),
+                    PeerMap::Large(m) => (
+                        true,
+                        Some(m.num_seeders),
+                        m.peers.iter().map(|(k, p)| peer_dump(k, p)).collect(),
+                    ),
+                };
+
+                out.push(TorrentDump {
+                    info_hash: info_hash.0,
+                    shard: shard_index,
+                    large,
+                    cached_num_seeders,
+                    peers,
+                    peer_map_lock_addr,
+                });
+            }
+        }
+
+        out.sort();
+
+        (out, addrs)
+    }
+
+    impl TorrentMaps {
+        pub fn verif_dump(&self) -> Dump {
+            let (ipv4, ipv4_shard_lock_addrs) = dump_shards(&self.ipv4);
+            let (ipv6, ipv6_shard_lock_addrs) = dump_shards(&self.ipv6);
+
+            Dump {
+                ipv4,
+                ipv6,
+                ipv4_shard_lock_addrs,
+                ipv6_shard_lock_addrs,
+            }
         }
     }
 }
